@@ -209,7 +209,8 @@ func failOf(a *Action) (string, int) {
 }
 
 // concrete spellings of the model's abstract ids: ids are opaque strings to the filter, including padded ones
-var idSpelling = map[string]string{"x": " x", "y": "y\n", "z": "Z-\u00fc ", "": ""}
+// (x and y differ only in the white space around them: they are two ids all the same)
+var idSpelling = map[string]string{"x": " x", "y": "x\n", "z": "Z-\u00fc ", "": ""}
 
 func (w *world) apply(a *Action) outcome {
 	ctx := context.Background()
